@@ -221,6 +221,7 @@ async fn run_one(node: &Arc<Node>, sc: &Value, serial: &mut u32) -> Value {
         Err(e) => return json!({"tool_error": format!("spawn gen_event: {e:?}")}),
     };
     let mut notes: Vec<String> = Vec::new();
+    let mut unanswered: Vec<Value> = Vec::new();
     let mut send_results = Vec::new();
     let from_tuple = |pid: &ExternalPid, r: ExternalReference| tup(vec![OwnedTerm::Pid(pid.clone()), OwnedTerm::Reference(r)]);
     for op in sc["hist"].as_array().cloned().unwrap_or_default() {
@@ -267,13 +268,26 @@ async fn run_one(node: &Arc<Node>, sc: &Value, serial: &mut u32) -> Value {
         if to_gs {
             if node.registry().get(&gs).await.is_some() {
                 let _ = node.send(&gs, tup(vec![a("$gen_call"), from_tuple(&sync_pid, sr), tup(vec![a("reply"), int(tag as i64)])])).await;
-                if !wait_for(&rec_log, tag, Duration::from_millis(400), node, Some(&gs)).await && node.registry().get(&gs).await.is_some() {
-                    notes.push(format!("no barrier answer from the gen_server after {kind} {n}"));
+                if !wait_for(&rec_log, tag, Duration::from_millis(400), node, Some(&gs)).await
+                    && node.registry().get(&gs).await.is_some()
+                    && !wait_for(&rec_log, tag, Duration::from_millis(4000), node, Some(&gs)).await
+                    && node.registry().get(&gs).await.is_some()
+                {
+                    unanswered.push(json!({"after": [kind, n], "call": "gen_server call"}));
+                    break;
                 }
             }
         } else {
             let _ = node.send(&ge, tup(vec![a("$gen_which_handlers"), from_tuple(&sync_pid, sr)])).await;
             if !wait_for(&rec_log, tag, Duration::from_millis(400), node, None).await {
+                // a which_handlers call to a live manager is itself a call the property wants answered: give it ample time before saying so
+                if wait_for(&rec_log, tag, Duration::from_millis(4000), node, None).await {
+                    continue;
+                }
+                if node.registry().get(&ge).await.is_some() {
+                    unanswered.push(json!({"after": [kind, n], "call": "which_handlers"}));
+                    break;
+                }
                 notes.push(format!("no barrier answer from the gen_event manager after {kind} {n}"));
             }
         }
@@ -310,7 +324,7 @@ async fn run_one(node: &Arc<Node>, sc: &Value, serial: &mut u32) -> Value {
         }
         node.registry().remove(p).await;
     }
-    json!({"inbox": inbox, "gsLog": gs_log_v, "gsAlive": gs_alive, "seen": seen_by, "installed": last_which, "gs_send_results": send_results, "notes": notes})
+    json!({"inbox": inbox, "gsLog": gs_log_v, "gsAlive": gs_alive, "seen": seen_by, "installed": last_which, "gs_send_results": send_results, "notes": notes, "unanswered": unanswered})
 }
 
 pub fn run(args: &[String]) -> i32 {
